@@ -196,7 +196,7 @@ def consts(ctx):
     ctx.add('ed.zeroize', 'B', to32(5).hex(), expect=pts.both(pts.expect_ed(ref.IDENT), pts.tok_is(2, to32(1).hex())), trivial=True)
 
 
-def task(prop, seed, size, cfgbins):
+def make(seed, size):
     ctx = core.Ctx(seed, prefix='e%d_' % (seed % 100000))
     pool = vals.point_pool(ctx.rng, 40)
     decoder_sweep(ctx, 120 + size)
@@ -204,6 +204,11 @@ def task(prop, seed, size, cfgbins):
     histories(ctx, pool, max(2, size // 16), 48)
     unknown_dlog(ctx, 6)
     consts(ctx)
+    return ctx
+
+
+def task(prop, seed, size, cfgbins):
+    ctx = make(seed, size)
     return core.run_and_judge(prop, ctx, cfgbins)
 
 
